@@ -169,7 +169,7 @@ Verdict runHistory(const Case &cs) {
           if (defineGrammar(*b, cs.grams[g]) != 0) { b->destroy(); delete b; return std::string("UNDEFINED"); }
           yaep_verif.rec_limit = REC_LIMIT;
           Outcome o = runParse(*b, cs.inputs[in], toConf(st, mode));
-          std::string r = o.hook.rec_explosion ? "EXPLOSION" : outcomeKey(o);
+          std::string r = o.exploded() ? "EXPLOSION" : outcomeKey(o);
           b->destroy(); delete b; return r; }});
       }
     }
@@ -257,7 +257,7 @@ Verdict runHistory(const Case &cs) {
       yaep_verif.rec_limit = REC_LIMIT;
       Outcome o = runParse(b, codes, cf);
       v.parses++;
-      if (o.hook.rec_explosion) { v.labels.insert("excluded:F27-recovery-explosion"); lastErr[s] = o.rc; continue; }
+      if (o.exploded()) { v.labels.insert(o.explosionLabel()); lastErr[s] = o.rc; continue; }
       if (o.t_bad_free) { v.fail("parse_free misuse: " + o.t_bad + at); return v; }
       if (sl[s].gram < 0 || !sl[s].defined) {
         if (o.rc != E_UNDEF) { v.fail("parse on an object without a (valid) grammar returned " + std::to_string(o.rc) + " instead of YAEP_UNDEFINED_OR_BAD_GRAMMAR: " + o.str() + at); return v; }
@@ -354,6 +354,7 @@ std::vector<std::string> transcribe(const Case &cs, Binding *(*mk)(), long *cont
       Conf cf;
       cf.la = b.set_la(0); b.set_la(cf.la); cf.one = b.set_one(0); b.set_one(cf.one); cf.cost = b.set_cost(0); b.set_cost(cf.cost);
       cf.rec = b.set_rec(0); b.set_rec(cf.rec); cf.match = b.set_match(1); b.set_match(cf.match); cf.dbg = 0; cf.freemode = mode;
+      yaep_verif.alt_limit = LONG_MAX / 2; yaep_verif.rec_limit = -1; // no harness limits here: libyaep++ has no hooks, both sides must run alike
       Outcome o = runParse(b, cs.inputs[in], cf);
       tr.push_back(at + oneLineStr(o.str()) + " alloc=" + std::to_string(o.t_alloc) + " free=" + std::to_string(o.t_free) + " badfree=" + std::to_string(o.t_bad_free) +
                    " live_after_free=" + std::to_string(o.t_live_after_free) + " termcb=" + std::to_string(o.termcb_calls));
